@@ -57,7 +57,7 @@ def tlvItems (bs : B) : Outcome String :=
       let (p1, it1) := it.step
       let (p2, _) := it1.step
       let fused := ended && after1.isNone && p1.isNone && p2.isNone
-      .val s!"[{",".intercalate parts.toList}] steps={steps} ended={b01 ended} fused={b01 fused} towned=1 sbytes=1"
+      .val s!"[{",".intercalate parts.toList}] steps={steps} ended={b01 ended} fused={b01 fused} towned=1 sbytes=1 adapt=1"
 
 def v2Ok (h : Header) : Outcome String := do
   let length ← h.lengthP
@@ -168,7 +168,8 @@ def op? (t : String) : Option Op :=
       | none => none
     | "wp" => (payload? v).map .writePayload
     | "wpr" => (payload? v).map .writePayload
-    | "wps" =>
+    | "wps" | "wpl" | "wpf" | "wpc" =>
+      -- one batch, whatever iterator type carries it (exact hint, lazy filter, from_fn, chain)
       if v.isEmpty then some (.writePayloads [])
       else
         let ps := (v.splitOn "+").map payload?
